@@ -3,7 +3,7 @@ import types
 import vlib
 
 ID = 'C05'
-LEAN_MODULES = ['TboxModel.C05.Props']
+LEAN_MODULES = ['TboxModel.C05.Props', 'TboxModel.C05.ReplayProofs']
 EXE = 'c05'
 MODE = 'trace'
 THEOREMS = ['Tbox.C05.C05_waiting_at_cleanup_never_runs', 'Tbox.C05.C05_cancel_running_noop', 'Tbox.C05.C05_execute_after_cleanup',
@@ -15,7 +15,10 @@ THEOREMS = ['Tbox.C05.C05_waiting_at_cleanup_never_runs', 'Tbox.C05.C05_cancel_r
             'Tbox.C05.C05_max_workers', 'Tbox.C05.C05_no_deadlock', 'Tbox.C05.C05_cleanup_progress',
             'Tbox.C05.C05_no_null_join',
             'Tbox.C05.C05_status_consistent_counterexample', 'Tbox.C05.C05_cancel_counterexample',
-            'Tbox.C05.C05_no_deadlock_counterexample', 'Tbox.C05.C05_no_null_join_counterexample']
+            'Tbox.C05.C05_no_deadlock_counterexample', 'Tbox.C05.C05_no_null_join_counterexample',
+            'Tbox.C05.C05_prio_width', 'Tbox.C05.C05_prio_add_before_clamp_counterexample', 'Tbox.C05.C05_initialize_width',
+            'Tbox.C05.C05_spawn_failure_reported', 'Tbox.C05.C05_spawn_failure_counterexample',
+            'Tbox.C05.Replay.C05_replay_sound', 'Tbox.C05.Replay.C05_replay_steps_sound_partial']
 SOURCES = ['modules/eventx/thread_pool.cpp', 'modules/eventx/work_thread.cpp'] + vlib.EVENT_SOURCES + vlib.BASE_SOURCES
 import os
 FLAVOUR = os.environ.get('C05_FLAVOUR', 'tsan')     # tsan in both tiers (fast enough); override only for experiments
@@ -29,15 +32,23 @@ HARNESS_ENV = {'C05_WATCHDOG_MS': '3000'}
 
 TRUSTED = ['model lean/TboxModel/C05/Model.lean is hand-written from thread_pool.cpp / work_thread.cpp (atomic regions = critical sections and the gaps '
            'between them); the theorems are about that model',
-           'the tie to the real code is a HISTORY acceptor (lean/TboxModel/C05/Spec.lean): every run of the real ThreadPool/WorkThread under '
-           'interposed delays must satisfy the property clauses on its recorded history; hidden worker steps are not replayed on the model',
+           'the tie to the real code has two layers on every case: (1) a HISTORY acceptor (lean/TboxModel/C05/Spec.lean: the property clauses on the recorded '
+           'history; a failure is a property-level violation) and (2) a STEP-LEVEL REPLAY (lean/TboxModel/C05/Replay.lean): the harness stamps every critical '
+           'section of the pool mutex, cond_wait entry/exit, notify_one/notify_all, runInLoop post, thread create/start/end/join with one global counter; '
+           'the driver maps each event to model steps, checks each with `valid`, lets the MODEL decide what the section does (exit / wait / which task is '
+           'popped / spawn or not / status, cancel, snapshot answers) and requires the next event of that thread to agree; the reconstructed step list is '
+           're-run with `exec`; a failed reconstruction is a model-internal divergence, a wrong pick against the exactly known queue is property-level',
            'std::mutex gives atomic critical sections; condition_variable::notify_all wakes every current waiter; spurious wake-ups allowed',
-           'sequence numbers of the harness (one atomic counter) linearise the recorded events; pthread_mutex_lock / pthread_cond_wait '
-           'interposition only adds delays on worker threads',
+           'one atomic counter linearises the recorded events (stamps inside a critical section are ordered like the sections); the stamps of the step '
+           'log are taken with memory_order_relaxed so that the log adds no happens-before edge ThreadSanitizer would honour; pthread_mutex_lock / '
+           'pthread_cond_wait interposition only adds delays on worker threads; pthread_create answers EAGAIN where the op file says so',
            'ThreadSanitizer (FLAVOUR tsan) reports data races on the schedules actually run; data-race freedom is not a theorem']
-ASSUMPTIONS = ['execute/cancel/getTaskStatus/snapshot/cleanup are called from the loop thread only (the property quantifies over that)',
+ASSUMPTIONS = ['no API call overlaps cleanup() (the property quantifies over calls from the loop thread; execute/cancel/getTaskStatus may also come from task bodies '
+               'and callbacks, cleanup() may not be called from a task body: a worker would join itself - std::system_error(EDEADLK) - outside the quantifier)',
                'task bodies terminate; fair scheduling of worker threads (needed for "cleanup terminates" on top of deadlock freedom)',
-               'no re-initialize after cleanup inside one case', 'cabinet ids do not wrap (2^32 tasks)']
+               'no re-initialize after cleanup inside one case', 'cabinet ids do not wrap (2^32 tasks)',
+               'a WorkThread constructed without a loop delivers a completion callback only when execute() is given a loop (no loop, no loop thread: '
+               'the callback is dropped by the code and by the model alike)']
 RULE_OLD = ('cases = (pool min/max in {0..4}x{1..6} incl. invalid, or WorkThread) x 1-200 tasks (priorities -3..3, bodies 0-3 ms, callbacks) interleaved '
         'with status/cancel/snapshot/hammer ops, cleanup at a random point, PRNG-seeded worker delays (before mutex lock, between predicate and '
         'wait); non-trivial = at least one task ran AND (an answer waiting/executing/cancelled was observed OR >= 2 workers ran bodies OR the '
@@ -49,12 +60,80 @@ RULE = ('cases = (pool min/max in {0..4}x{1..6} incl. invalid, or WorkThread) x 
         'wait, after unlock; loop thread inside cleanup: after unlock); worker-level records (threads created per execute, quiescent snapshots, thread '
         'start/end) checked against the model\'s spawn / voluntary-exit decisions as model-internal observables; non-trivial = at least one task ran AND '
         '(an answer waiting/executing/cancelled was observed OR >= 2 workers ran bodies OR the pick-order clause was asserted on >= 1 pair OR a spawn / '
-        'exit decision was checked at a quiescent point); distinct = distinct op text')
+        'exit decision was checked at a quiescent point OR the step-level replay confirmed a pick / an answer); round 5 families: priorities on both sides of the '
+        'clamp and of 2^15/2^16/2^31 (INT_MIN..INT_MAX) behind gates, initialize() with negative / SSIZE_MIN / SSIZE_MAX arguments and the default (0, SSIZE_MAX), '
+        'initialize() on a ready pool, cleanup() twice, every execute() overload (rvalue / const-reference, WorkThread with and without explicit loop, WorkThread '
+        'without default loop), pthread_create failing with EAGAIN at a chosen creation inside initialize() or execute(), bulk submissions of 3*10^4..10^5 '
+        'anonymous tasks (history-level checks only); distinct = distinct op text')
+
+
+BOUNDARY_PRIOS = [-2147483648, -2147483647, -2147483646, -65537, -65536, -32769, -32768, -101, -3, -2, -1, 0, 1, 2, 3, 101, 32767, 32768,
+                  65535, 65536, 2147483645, 2147483646, 2147483647]
+BAD_CFGS = [(-1, 3), (0, -1), (-1, -1), (-9223372036854775808, 5), (2, -9223372036854775808), (3, 2), (0, 0), (5, 1), (1, 0),
+            (9223372036854775807, 1), (-9223372036854775808, 9223372036854775807)]
+
+
+def gen_boundary(rng, tier):
+    """width / sign families (tools/narrowing/C05.txt): priorities on both sides of the clamp and of 2^15/2^16/2^31 queued behind
+    gates so that the exact pick order is replayed; initialize() with negative / extreme ssize_t arguments, the default
+    configuration (0, SSIZE_MAX), initialize() on a ready pool, cleanup() twice"""
+    r = rng.random()
+    if r < 0.25:
+        mn, mx = rng.choice(BAD_CFGS)
+        ops = ['cfg pool %d %d %d 0' % (mn, mx, rng.randrange(1 << 30)), 'exec 0 0 0', 'snap', 'stat 0', 'cleanup', 'fin']
+        return ops
+    mn, mx = rng.choice([(1, 1), (1, 1), (2, 2), (0, 1), (0, 9223372036854775807), (1, 9223372036854775807)])
+    ops = ['cfg pool %d %d %d %d' % (mn, mx, rng.randrange(1 << 30), rng.choice([0, 0, 300]))]
+    if mx > 4:
+        # the default configuration: the pool grows by one worker per waiting task
+        for _ in range(rng.choice([2, 5, 9])): ops.append('exec %d %d %d' % (rng.choice(BOUNDARY_PRIOS), rng.randrange(2), rng.choice([0, 500, 3000])))
+        ops += ['snap', rng.choice(['drain', 'settle']), 'snap']
+    else:
+        for _ in range(mx): ops.append('exec 0 0 %d' % rng.choice([8000, 15000, 20000]))
+        n = rng.choice([3, 6, 10, 16])
+        for _ in range(n): ops.append('exec %d %d 0' % (rng.choice(BOUNDARY_PRIOS), rng.randrange(2)))
+        if rng.random() < 0.5: ops.append('snap')
+        if rng.random() < 0.3: ops.append('cancel %d' % rng.randrange(mx, mx + n))
+        if rng.random() < 0.3: ops.append('reinit %d %d' % rng.choice([(1, 1), (0, 3), (-1, 2), (9, 9)]))
+        ops.append(rng.choice(['drain', 'drain', 'hammer 2000']))
+    if rng.random() < 0.3: ops.append('reinit %d %d' % rng.choice([(1, 1), (0, 3), (-1, 2)]))
+    ops.append('cleanup')
+    if rng.random() < 0.5: ops += ['cleanup'] + (['exec 0 1 0'] if rng.random() < 0.5 else [])
+    ops.append('fin')
+    return ops
+
+
+def gen_failspawn(rng, tier):
+    """fault schedule for pthread_create (EAGAIN at a chosen creation): inside initialize() (roll back, refuse), inside execute()
+    with workers present (the task waits for them) or with none (the task is refused with a null token)"""
+    r = rng.random()
+    if r < 0.3:
+        mn = rng.randrange(1, 5); mx = mn + rng.randrange(0, 3)
+        k = rng.randrange(1, mn + 1)
+        return ['failspawn %d' % k, 'cfg pool %d %d %d %d' % (mn, mx, rng.randrange(1 << 30), rng.choice([0, 300])), 'exec 0 1 0', 'snap',
+                rng.choice(['cleanup', 'destroy']), 'fin']
+    mn = rng.choice([0, 0, 1, 2]); mx = mn + rng.randrange(1, 4)
+    ops = ['cfg pool %d %d %d %d' % (mn, mx, rng.randrange(1 << 30), rng.choice([0, 0, 300]))]
+    n = 0
+    for _ in range(rng.choice([1, 2, 3])):
+        for _ in range(rng.choice([0, 1, 2])):
+            ops.append('exec %d %d %d' % (rng.choice([-1, 0, 0, 1]), rng.randrange(2), rng.choice([0, 300, 3000]))); n += 1
+        ops.append('failspawn %d' % rng.choice([1, 1, 1, 2]))
+        for _ in range(rng.choice([1, 2, 4])):
+            ops.append('exec %d %d %d' % (rng.choice([-1, 0, 0, 1]), rng.randrange(2), rng.choice([0, 300, 3000]))); n += 1
+        if rng.random() < 0.5: ops.append('snap')
+        if rng.random() < 0.5: ops.append(rng.choice(['drain', 'settle']))
+    ops += [rng.choice(['drain', 'settle', 'snap']), 'cleanup', 'fin']
+    return ops
 
 
 def gen_case(rng, tier):
+    r0 = rng.random()
+    if r0 < 0.10: return gen_boundary(rng, tier)
+    if r0 < 0.16: return gen_failspawn(rng, tier)
     ops = []
     kind = 'wt' if rng.random() < 0.15 else 'pool'
+    if kind == 'wt' and rng.random() < 0.3: kind = 'wt0'
     r = rng.random()
     if r < 0.06:
         mn, mx = rng.choice([(3, 2), (0, 0), (5, 1), (1, 0)])          # initialize() must refuse
@@ -73,7 +152,7 @@ def gen_case(rng, tier):
     n = [0]
 
     def ex():
-        ops.append('exec %d %d %d' % (rng.choice([-3, -2, -1, 0, 0, 0, 1, 2, 3]), rng.randrange(2), rng.choice(durs)))
+        ops.append('exec %d %d %d' % (rng.choice([-3, -2, -1, 0, 0, 0, 1, 2, 3]) if rng.random() < 0.9 else rng.choice(BOUNDARY_PRIOS), rng.randrange(2), rng.choice(durs)))
         n[0] += 1
 
     def probe():
@@ -157,7 +236,7 @@ def gen_case(rng, tier):
         if rng.random() < 0.5:
             ops.append('drain')
             for _ in range(rng.choice([0, 2])): probe()
-    if (kind == 'pool' and shape >= 0.96) or (kind == 'wt' and rng.random() < 0.3):
+    if (kind == 'pool' and shape >= 0.96) or (kind != 'pool' and rng.random() < 0.3):
         gmn, gmx = (mn, mx) if (mx > 0 and mn <= mx) else (1, 2)
         return gen_gate(rng, kind, gmn, min(gmx, 4), rng.choice(['cleanup', 'destroy']))
     if rng.random() < 0.1:
@@ -179,7 +258,7 @@ def gen_gate(rng, kind, mn, mx, how):
     every task still waiting at that moment must never run.  Also: status of the backlog (waiting) and of the gate
     (executing), cancel of a waiting task (0) and of the running gate (2), API calls after cleanup."""
     ops = ['cfg %s %d %d %d %d' % (kind, mn, mx, rng.randrange(1 << 30), rng.choice([0, 0, 150, 300]))]
-    ng = 1 if kind == 'wt' else mx
+    ng = 1 if kind != 'pool' else mx
     for _ in range(ng): ops.append('exec 0 %d %d' % (rng.randrange(2), rng.choice([12000, 15000, 20000])))
     nb = rng.choice([1, 2, 3, 5, 8])
     for _ in range(nb): ops.append('exec %d %d %d' % (rng.choice([-1, 0, 0, 1]), rng.randrange(2), rng.choice([0, 0, 300])))
@@ -239,6 +318,21 @@ def gen(rng, tier):
     yield ['cfg pool 2 3 23 300', 'exec 0 1 500', 'offloop 8 0', 'hammer 1000', 'offloop 24 0', 'settle', 'cleanup', 'fin']
     yield ['cfg wt 0 0 24 0', 'offloop 8 0', 'offloop 8 100', 'cleanup', 'fin']
     yield ['cfg wt 0 0 16 300', 'exec 0 1 1000', 'exec 0 1 0', 'exec 0 0 0', 'hammer 2000', 'cancel 2', 'drain', 'cleanup', 'cancel 0', 'stat 1', 'exec 0 0 0', 'fin']
+    # round 5 directed: widths, wt0 (WorkThread without a default loop: callbacks only with an explicit loop), re-initialize, double cleanup
+    yield ['cfg pool 1 1 51 0', 'exec 0 0 15000', 'exec 2147483647 1 0', 'exec -2147483648 1 0', 'exec 3 0 0', 'exec 2 0 0', 'exec -3 1 0', 'exec -2 0 0',
+           'exec 65536 0 0', 'exec -65536 0 0', 'snap', 'drain', 'reinit 1 1', 'cleanup', 'cleanup', 'exec 0 0 0', 'fin']
+    yield ['cfg pool 0 9223372036854775807 52 0', 'exec 0 1 2000', 'exec 0 1 2000', 'exec 0 1 2000', 'exec 0 0 2000', 'snap', 'drain', 'settle', 'snap', 'cleanup', 'fin']
+    yield ['cfg pool -1 3 53 0', 'exec 0 0 0', 'cleanup', 'fin']
+    yield ['cfg pool 0 -9223372036854775808 54 0', 'snap', 'cleanup', 'fin']
+    yield ['cfg wt0 0 0 55 0', 'exec 0 1 1000', 'exec 0 1 0', 'exec 0 1 0', 'exec 0 1 0', 'exec 0 1 0', 'exec 0 0 0', 'stat 1', 'cancel 4', 'drain', 'cleanup', 'fin']
+    yield ['cfg wt0 0 0 56 300', 'exec 0 1 15000', 'exec 0 1 0', 'exec 0 1 0', 'exec 0 1 0', 'destroy', 'fin']
+    yield ['cfg pool 65 70 57 0', 'cfg pool 1 1 57 0', 'cfg wt 0 0 1 0', 'reinit 1 1', 'reinit x 1', 'failspawn 0', 'failspawn 9', 'cleanup', 'reinit 1 1', 'fin']
+    # 10^5 queued tasks: queue / cabinet / object pool at scale, snapshot counters, cleanup() drops the backlog (linear: a quadratic
+    # cleanup runs into the watchdog), every accepted task executed exactly once when drained
+    yield ['cfg pool 2 2 58 0', 'exec 0 0 20000', 'exec 0 0 20000', 'bulk 100000 1', 'snap', 'exec -1 1 0', 'stat 2', 'snap', 'cleanup', 'snap', 'fin']
+    yield ['cfg pool 1 4 59 0', 'bulk 100000 -2147483648', 'snap', 'drain', 'snap', 'cleanup', 'fin']
+    yield ['cfg wt 0 0 60 0', 'exec 0 1 20000', 'bulk 60000 0', 'exec 0 1 0', 'stat 1', 'destroy', 'fin']
+    yield ['cfg pool 0 3 61 0', 'bulk 30000 2', 'bulk 5 0', 'settle', 'cleanup', 'bulk 10 0', 'fin']
     for _ in range(n):
         yield gen_case(rng, tier)
 
@@ -254,14 +348,15 @@ def nontrivial(ops, model_lines):
     tags = ' '.join(l for l in model_lines if l.startswith('B ')).split()
     if 'ran' not in tags: return None
     return 1 if any(t in tags for t in ('stat-w', 'stat-e', 'cancel-0', 'cancel-2', 'multi-worker', 'order-checked', 'spawn-checked-0',
-                                       'spawn-checked-1', 'exit-rule-checked', 'offloop', 'nested-exec', 'worker-query', 'worker-cancel', 'cleanup-cs')) else None
+                                       'spawn-checked-1', 'exit-rule-checked', 'offloop', 'nested-exec', 'worker-query', 'worker-cancel', 'cleanup-cs', 'pick-replayed',
+                                       'answer-replayed', 'spawn-failed', 'bulk')) else None
 
 
 def fingerprint(ops, d):
     if not d: return 'schedule-dependent-not-reproduced'
     txt = d[1] or ''
     if 'output ends' in txt: return 'crash-or-sanitizer-report'
-    for key, fp in (('still waiting when cleanup', 'ran-after-cleanup-began'), ('not joined', 'cleanup-unjoined-worker'), ('had not finished', 'cleanup-unjoined-worker'),
+    for key, fp in (('threw an exception', 'spawn-failure-throws'), ('left worker threads running', 'spawn-failure-throws'), ('still waiting when cleanup', 'ran-after-cleanup-began'), ('not joined', 'cleanup-unjoined-worker'), ('had not finished', 'cleanup-unjoined-worker'),
                     ('drain:', 'task-never-executed'), ('settle:', 'task-never-executed'), ('DEADLOCK', 'cleanup-deadlock'), ('NOT FOUND', 'status-not-found-then-runs'), ('cancellable', 'waiting-after-start'),
                     ('tsan', 'tsan-data-race'), ('signal6', 'abort'), ('signal11', 'segv'), ('pick order', 'pick-order'),
                     ('more than once', 'twice'), ('exceed the maximum', 'max-workers'), ('timeout', 'cleanup-deadlock'),
@@ -294,11 +389,13 @@ LEVEL_TEXT = ('Lean 4 theorems over an interleaving model of ThreadPool/WorkThre
               'critical sections and the gaps between them; condvar = waiter set): inductive invariants proved for EVERY step list give '
               'exactly-once, worker-only, callback-once-after-body, cancel soundness, status consistency, priority/FIFO pick, max workers, '
               'deadlock freedom + bounded progress after cleanup\'s notify; counterexample interleavings of the code as found are proved by '
-              'decide. Tied to the real code on every run by a history acceptor over runs of the real pool with a real loop under PRNG-seeded '
-              'delays (ThreadSanitizer build).')
+              'decide. Tied to the real code on every run by a history acceptor AND a step-level replay (every recorded run is reconstructed as a '
+              '`valid`-checked execution of the model from global sequence numbers at the interposed pthread calls) over runs of the real pool with a real '
+              'loop under PRNG-seeded delays and pthread_create fault schedules (ThreadSanitizer build).')
 LEVEL_NOTE = ('partial in two respects, said rather than worked around: (1) data-race freedom cannot be exhibited by the Lean model — it is searched with '
               'ThreadSanitizer on the schedules actually run, never claimed as proved; (2) "cleanup always terminates" is proved as deadlock freedom '
               '(no worker blocked after notify_all, every worker step strictly decreases a rank <= 5) under the stated fairness assumption. '
-              'The model/code tie is a history-level acceptor (property clauses on recorded runs), weaker than a step-by-step replay.')
+              'The step-level replay covers what the interposed pthread calls show: the order of runInLoop posts is exact, the moment the loop executes a join '
+              'that cleanup() made unnecessary is not observable and is placed by the model.')
 TECHNIQUE = 'Lean 4 invariant proofs over all interleavings of a step model + history acceptor on the real pool under schedule perturbation (TSan)'
 DESIGN_REF = 'DESIGN.md §6 C05, §7 row 13'
